@@ -4,12 +4,14 @@
 #include "vx_core.hpp"
 #include <new>
 namespace vx { AllocGuard g_alloc; }
+#ifndef VX_SAN   // the sanitizer runtimes bring their own operator new/delete; the plain build carries the allocation monitor
 void* operator new(size_t n) { if (vx::g_alloc.in_lib) ++vx::g_alloc.hits; void* p = malloc(n ? n : 1); if (!p) abort(); return p; }
 void* operator new[](size_t n) { if (vx::g_alloc.in_lib) ++vx::g_alloc.hits; void* p = malloc(n ? n : 1); if (!p) abort(); return p; }
 void operator delete(void* p) noexcept { if (vx::g_alloc.in_lib) ++vx::g_alloc.hits; free(p); }
 void operator delete[](void* p) noexcept { if (vx::g_alloc.in_lib) ++vx::g_alloc.hits; free(p); }
 void operator delete(void* p, size_t) noexcept { if (vx::g_alloc.in_lib) ++vx::g_alloc.hits; free(p); }
 void operator delete[](void* p, size_t) noexcept { if (vx::g_alloc.in_lib) ++vx::g_alloc.hits; free(p); }
+#endif
 #ifdef VX_WRAP_MALLOC
 extern "C" {
 void* __real_malloc(size_t); void* __real_calloc(size_t, size_t); void* __real_realloc(void*, size_t); void __real_free(void*);
